@@ -143,17 +143,18 @@ def pipeline_events(scr, label, it, rnd_params, tmp):
             call("thetas:" + mname, (), "raised:" + h[:60])
             continue
         call("thetas:" + mname, (), hd(*[theta_bytes(t) for t in h.thetas]))
-        if mname != "SparseDrugCombo":
-            continue
         nch = rnd_params["dist_chunks"]
         mats = []
         for c in range(nch):
             st, m = outcome(calculate_pairwise_distance_matrix_on_predictions, h, MSEDistance(), scr, c, nch)
             if st != "ok":
-                call("distance-chunk", (c, nch), "raised:" + m[:60])
-                return events
+                call("distance-chunk:" + mname, (c, nch), "raised:" + m[:60])      # failing identically is "the same output"
+                mats = None
+                break
             mats.append(m)
-            call("distance-chunk", (c, nch), hd(m.row_indices[:m.current_index].tobytes(), m.col_indices[:m.current_index].tobytes(), m.values[:m.current_index].tobytes()))
+            call("distance-chunk:" + mname, (c, nch), hd(m.row_indices[:m.current_index].tobytes(), m.col_indices[:m.current_index].tobytes(), m.values[:m.current_index].tobytes()))
+        if mats is None:
+            continue
         dm = ChunkedDistanceMatrix.concat(mats)
         batch = rnd_params["batch"]
         for sname, scorer in (("GaussianDBALScorer", GaussianDBALScorer(max_chunk=2)), ("RandomScorer", RandomScorer()), ("SizeScorer", SizeScorer())):
@@ -161,14 +162,14 @@ def pipeline_events(scr, label, it, rnd_params, tmp):
             for c in range(rnd_params["score_chunks"]):
                 st, sh = outcome(score_chunk, scorer, h, scr, dm, np.random.default_rng(99), False, rnd_params["score_chunks"], c, batch or None)
                 if st != "ok":
-                    call("scores:" + sname, (c, rnd_params["score_chunks"], batch), "raised:" + sh[:60])
+                    call("scores:" + mname + ":" + sname, (c, rnd_params["score_chunks"], batch), "raised:" + sh[:60])
                     break
                 holders.append(sh)
-                call("scores:" + sname, (c, rnd_params["score_chunks"], batch), hd(sh.scores.tobytes(), sh.plate_ids.tobytes()))
+                call("scores:" + mname + ":" + sname, (c, rnd_params["score_chunks"], batch), hd(sh.scores.tobytes(), sh.plate_ids.tobytes()))
             else:
                 allh = ChunkedScoresHolder.concat(holders)
                 st, pl = outcome(select_next_plate, allh, scr, None, batch or None, np.random.default_rng(3))
-                call("selected:" + sname, (rnd_params["score_chunks"], batch), "none" if (st == "ok" and pl is None) else (str(int(pl.plate_id)) if st == "ok" else "raised:" + pl[:40]))
+                call("selected:" + mname + ":" + sname, (rnd_params["score_chunks"], batch), "none" if (st == "ok" and pl is None) else (str(int(pl.plate_id)) if st == "ok" else "raised:" + pl[:40]))
     return events
 
 
@@ -206,17 +207,26 @@ def run(ctx):
     tmp = tempfile.mkdtemp(prefix="verif-c04-")
     traces = []
     try:
-        for k in range(6 if ctx.quick else 40):
+        for k in range(5 if ctx.quick else 40):
             n = rnd.randint(6, 10)
             rows = []
             for i in range(n):
                 t = rnd.choice([(0, 1), (0, -1), (-1, 1), (1, 0), (0, 1)])
                 rows.append({"s": rnd.randint(0, 1), "t": list(t), "m": None, "c": "ok"})
+            if k % 2 == 1:
+                # a sample whose single-agent wells sit only on the (masked) last plate, while its combinations are observed earlier
+                rows[0] = {"s": 1, "t": [0, 1], "m": None, "c": "ok"}
+                rows[1] = {"s": 0, "t": [0, 1], "m": None, "c": "ok"}
+                for i in range(2, n - 2):
+                    if rows[i]["s"] == 1 and -1 in rows[i]["t"]:
+                        rows[i]["s"] = 0
+                rows[n - 2] = {"s": 1, "t": [0, -1], "m": None, "c": "ok"}
+                rows[n - 1] = {"s": 1, "t": [-1, 1], "m": None, "c": "ok"}
             # plates of two rows; about half observed
             nplates = (n + 1) // 2
             pobs = [rnd.random() < 0.55 for _ in range(nplates)]
             pobs[0] = True
-            if all(pobs):
+            if all(pobs) or k % 2 == 1:
                 pobs[-1] = False
             base = build(rows, rng)
             pn = np.array(["p%02d" % (i // 2) for i in range(n)], dtype=str)
